@@ -1435,6 +1435,12 @@ func (d *Data) storeAndUpdate(ctx *datastore.VersionedCtx, keyStr string, newDat
 	}
 	rcvJSON, _ := json.Marshal(newData)
 	origJSON, _ := json.Marshal(origData)
+	// updateJSON removes nulled fields from origData, so remember which fields the stored
+	// annotation had for the field counts below.
+	origFields := make([]string, 0, len(origData))
+	for field := range origData {
+		origFields = append(origFields, field)
+	}
 	updateJSON(origData, newData, ctx.User, conditionals, replace)
 	newJSON, _ := json.Marshal(newData)
 	dvid.Infof("neuronjson %s put by user %q, conditionals %v, replace %t:\nOrig: %s\n Rcv: %s\n New: %s\n",
@@ -1447,8 +1453,11 @@ func (d *Data) storeAndUpdate(ctx *datastore.VersionedCtx, keyStr string, newDat
 		mdb.data[bodyid] = newData
 
 		// cache updated field and field timestamps
-		for field := range origData {
+		for _, field := range origFields {
 			mdb.fields[field]--
+			if mdb.fields[field] <= 0 {
+				delete(mdb.fields, field)
+			}
 		}
 		for field := range newData {
 			mdb.fields[field]++
@@ -1580,6 +1589,9 @@ func (d *Data) DeleteData(ctx storage.VersionedCtx, keyStr string) error {
 		if found {
 			for field := range mdb.data[bodyid] {
 				mdb.fields[field]--
+				if mdb.fields[field] <= 0 {
+					delete(mdb.fields, field)
+				}
 			}
 			delete(mdb.data, bodyid)
 			mdb.deleteBodyID(bodyid)
@@ -2279,13 +2291,11 @@ func (d *Data) ServeHTTP(uuid dvid.UUID, ctx *datastore.VersionedCtx, w http.Res
 		if returnCounts {
 			result = fieldCount
 		} else {
-			fields := make([]string, len(fieldCount))
-			i := 0
+			fields := make([]string, 0, len(fieldCount))
 			for field, count := range fieldCount {
 				if count > 0 {
-					fields[i] = field
+					fields = append(fields, field)
 				}
-				i++
 			}
 			result = fields
 		}
